@@ -7,19 +7,18 @@
   forms; search path = list of directories, first hit wins).  `fuel` bounds the recursion depth;
   all statements are for every configuration, program and fuel.
 
-  The FULL statement of the inclusion
+  The model mirrors the code AFTER the two repairs 91ba43e (embed-file targets are listed) and
+  95cfe0a (the include vectors of the programs nested in a program are collected, no liveness
+  filter).  Before them the FULL inclusion `reads_subset_deps` was false (embed targets and
+  includes inside a `(mod …)` used as an expression were missing; the former `decide`
+  counter-witnesses are kept below as `…_repaired` theorems on the same inputs: the file now IS
+  listed) and only a `_partial` version with the two exclusions could be proved.  Now the full
+  statement holds, with no exclusion: embed-file reads and reads at every nesting depth included.
 
-      theorem reads_subset_deps :
-        compileReads cfg fuel main = .ok reads → gatherDeps cfg fuel main = .ok deps →
-        ∀ r ∈ reads, r.res.isPseudo ∨ r.res ∈ deps
-
-  is FALSE for the code as it is (and therefore for the model, which mirrors it): embed-file
-  targets are never listed, and includes inside a `(mod …)` nested in an expression are listed
-  into a vector that is dropped.  Both are witnessed below with `decide`
-  (`embed_not_listed`, `nested_mod_include_not_listed`, `reads_subset_deps_counterexample`), and
-  `reads_subset_deps_partial` proves the inclusion for exactly the remaining reads: every
-  `read_new_file` call that is not made by `process_embed` and not made while compiling a
-  nested mod.
+  Still partial: `acyclic_terminates` (programs without nested mods; fuel then counts include depth
+  only).  Not covered by the abstraction of forms (see tools/props/c18.py, modelled_not_verified):
+  a `(mod …)` that only comes into being when an old-style `defmacro` is expanded during code
+  generation — finding F-C18-macro-generated-mod, which the listing still misses.
   (Helper lemmas live in Proofs/DepsLemmas.lean.)
 -/
 import ChialispModel.Sys.Deps
@@ -28,12 +27,13 @@ import ChialispModel.Proofs.DepsLemmas
 namespace C18
 open Deps
 
-/-- every file read by the compilation, other than embed-file targets and reads made inside a
-    nested `(mod …)`, is a pseudo-file or appears in the dependency listing. -/
-theorem reads_subset_deps_partial (cfg : Cfg) (fuel : Nat) (main : List Form)
+/-- FULL inclusion: every file read by the compilation — plain includes, includes of included
+    files, embed-file targets, and all of these inside `(mod …)` expressions nested to any depth —
+    is a pseudo-file or appears in the dependency listing. -/
+theorem reads_subset_deps (cfg : Cfg) (fuel : Nat) (main : List Form)
     (reads : List Read) (deps : List RName)
     (hc : compileReads cfg fuel main = .ok reads) (hg : gatherDeps cfg fuel main = .ok deps) :
-    ∀ r ∈ reads, r.embed = false → r.nested = false → r.res.isPseudo = true ∨ r.res ∈ deps := by
+    ∀ r ∈ reads, r.res.isPseudo = true ∨ r.res ∈ deps := by
   unfold compileReads at hc
   unfold gatherDeps at hg
   split at hc
@@ -44,59 +44,33 @@ theorem reads_subset_deps_partial (cfg : Cfg) (fuel : Nat) (main : List Form)
     · cases hg
     · rename_i og hog
       injection hg with hg; subst hg
-      obtain ⟨f, pre, sub, hf, hpre, hsub, hreads, _⟩ := frontend_ok hoc
-      obtain ⟨f', preG, _, hf', hpreG, _, _, hlistedG⟩ := frontend_ok hog
-      have : f' = f := by omega
-      subst this
-      obtain ⟨m, P, hP, rfl, hml, _⟩ := preprocess_split hpre
-      obtain ⟨m', P', hP', rfl, _, _⟩ := preprocess_split hpreG
-      rw [hP] at hP'; injection hP' with hP'; subst hP'
-      obtain ⟨hgood, _, _⟩ := seq_good cfg _ main P hP
-      intro r hr he hn
-      rw [hreads] at hr
-      simp only [Out.append, List.mem_append] at hr
-      rcases hr with (hr | hr) | hr
-      · -- read of `*macros*`
-        left
-        have := (preprocess_split hpre)
-        obtain ⟨m2, P2, hP2, heq, _, hmr⟩ := this
-        rw [hP] at hP2; injection hP2 with hP2; subst hP2
-        have hm : m.reads = m2.reads := by
-          have := congrArg Out.reads heq
-          simpa [Out.append] using this
-        exact hmr r (by rw [← hm]; exact hr)
-      · rcases hgood r hr he hn with h | h
-        · exact .inl h
-        · by_cases hp : r.res.isPseudo = true
-          · exact .inl hp
-          · right
-            rw [hlistedG]
-            simp only [Out.append, List.mem_filter, List.mem_append]
-            exact ⟨.inr h, by simpa using hp⟩
-      · rw [hsub r hr] at hn; cases hn
+      intro r hr
+      rcases (frontend_rel cfg true cfg.strict fuel false false main oc og hoc hog).1 r hr with h | h
+      · exact .inl h
+      · by_cases hp : r.res.isPseudo = true
+        · exact .inl hp
+        · right
+          simp only [List.mem_filter]
+          exact ⟨h, by simpa using hp⟩
 
-/-- every listed name is the FIRST match in search-path order: it names a source file that
-    exists in directory `i` and in no earlier directory of the path. -/
+/-- every listed name is the FIRST match in search-path order: it names a source file (or, for an
+    embed-file target, a data file) that exists in directory `i` and in no earlier directory of
+    the path. -/
 theorem listed_is_first_match (cfg : Cfg) (fuel : Nat) (main : List Form) (deps : List RName)
     (hg : gatherDeps cfg fuel main = .ok deps) :
-    ∀ x ∈ deps, ∃ i n, x = .src i n ∧ FirstMatch cfg.dirs i n := by
+    ∀ x ∈ deps, (∃ i n, x = .src i n ∧ FirstMatch cfg.dirs i n) ∨
+      (∃ i n, x = .dat i n ∧ FirstMatchDat cfg.dirs i n) := by
   unfold gatherDeps at hg
   split at hg
   · cases hg
   · rename_i og hog
     injection hg with hg; subst hg
-    obtain ⟨f, preG, _, _, hpreG, _, _, hlistedG⟩ := frontend_ok hog
-    obtain ⟨m, P, hP, rfl, hml, _⟩ := preprocess_split hpreG
-    obtain ⟨_, hok, _⟩ := seq_good cfg _ main P hP
     intro x hx
-    rw [hlistedG] at hx
-    simp only [Out.append, List.mem_filter, List.mem_append] at hx
+    simp only [List.mem_filter] at hx
     obtain ⟨hx, hnp⟩ := hx
-    rcases hx with hx | hx
-    · have := hml x hx; simp [this] at hnp
-    · rcases hok x hx with h | h
-      · simp [h] at hnp
-      · exact h
+    rcases frontend_listedOK cfg cfg.strict fuel false main og hog x hx with h | h
+    · simp [h] at hnp
+    · exact h
 
 /-- every listed name is a file the compilation actually reads (the listing resolves names the
     same way the compiler does; it never names a same-named file further down the path). -/
@@ -114,22 +88,12 @@ theorem listed_is_read (cfg : Cfg) (fuel : Nat) (main : List Form)
     · cases hg
     · rename_i og hog
       injection hg with hg; subst hg
-      obtain ⟨f, pre, sub, hf, hpre, _, hreads, _⟩ := frontend_ok hoc
-      obtain ⟨f', preG, _, hf', hpreG, _, _, hlistedG⟩ := frontend_ok hog
-      have : f' = f := by omega
-      subst this
-      obtain ⟨m, P, hP, rfl, _, _⟩ := preprocess_split hpre
-      obtain ⟨m', P', hP', rfl, hml', _⟩ := preprocess_split hpreG
-      rw [hP] at hP'; injection hP' with hP'; subst hP'
-      obtain ⟨_, _, hback⟩ := seq_good cfg _ main P hP
       intro x hx
-      rw [hlistedG] at hx
-      simp only [Out.append, List.mem_filter, List.mem_append] at hx
+      simp only [List.mem_filter] at hx
       obtain ⟨hx, hnp⟩ := hx
-      rcases hx with hx | hx
-      · have := hml' x hx; simp [this] at hnp
-      · obtain ⟨r, hr, hres, _⟩ := hback x hx
-        exact ⟨r, by rw [hreads]; simp [Out.append, hr], hres⟩
+      rcases (frontend_rel cfg true cfg.strict fuel false false main oc og hoc hog).2 x hx with h | h
+      · simp [h] at hnp
+      · exact h
 
 /-- termination (⇐): if the include graph has a rank function (it is acyclic) whose value on the
     program's own includes is below `fuel − 3`, and neither the program nor any reachable file
@@ -204,7 +168,7 @@ theorem cycle_never_terminates (strict : Bool) (fuel : Nat) :
       | ok a => rfl
 
 -- ---------------------------------------------------------------------------------------------
--- the two defects of the unchanged code, as witnesses (the model mirrors the code, bugs included)
+-- the two former defects, on the former counter-witnesses: the files now ARE listed
 -- ---------------------------------------------------------------------------------------------
 
 /-- one directory holding source file 1 (`(… (defun …))`), source file 2 that includes 1, and
@@ -219,44 +183,45 @@ def cfgS : Cfg := { dirs := [dir0], strict := true }
 def readsOf (r : Except Err (List Read)) : List Read := match r with | .ok l => l | .error _ => []
 def depsOf (r : Except Err (List RName)) : Option (List RName) := match r with | .ok l => some l | .error _ => none
 
-/-- `(mod (A) (include *standard-cl-21*) (embed-file C bin "7") …)`: the data file is read, the
-    listing is empty. -/
-theorem embed_not_listed :
-    depsOf (gatherDeps cfgN 6 [.incl (.dialect 0), .embed .bin 7, .other]) = some [] ∧
+/-- `(mod (A) (include *standard-cl-21*) (embed-file C bin "7") …)`: the data file is read and
+    (since 91ba43e) listed.  Before: `some []`. -/
+theorem embed_listed_repaired :
+    depsOf (gatherDeps cfgN 6 [.incl (.dialect 0), .embed .bin 7, .other]) = some [.dat 0 7] ∧
     (⟨.dat 0 7, true, false⟩ : Read) ∈ readsOf (compileReads cfgN 6 [.incl (.dialect 0), .embed .bin 7, .other]) := by
   decide
 
 /-- `(mod (A) (include *standard-cl-23*) (defun f (X) (a (mod (Y) (include "1") …) …)) …)`: file 1
-    is read while the nested mod is compiled, the listing is empty. -/
-theorem nested_mod_include_not_listed :
-    depsOf (gatherDeps cfgS 6 [.incl (.dialect 0), .nested [.incl (.file 1), .other], .other]) = some [] ∧
+    is read while the nested mod is compiled and (since 95cfe0a) listed.  Before: `some []`. -/
+theorem nested_mod_include_listed_repaired :
+    depsOf (gatherDeps cfgS 6 [.incl (.dialect 0), .nested [.incl (.file 1), .other], .other]) = some [.src 0 1] ∧
     (⟨.src 0 1, false, true⟩ : Read) ∈
       readsOf (compileReads cfgS 6 [.incl (.dialect 0), .nested [.incl (.file 1), .other], .other]) := by
   decide
 
-/-- hence the full inclusion does not hold. -/
-theorem reads_subset_deps_counterexample :
-    ¬ (∀ (cfg : Cfg) (fuel : Nat) (main : List Form) (reads : List Read) (deps : List RName),
-        compileReads cfg fuel main = .ok reads → gatherDeps cfg fuel main = .ok deps →
-        ∀ r ∈ reads, r.res.isPseudo = true ∨ r.res ∈ deps) := by
-  intro h
-  have hc : ∃ reads, compileReads cfgN 6 [.incl (.dialect 0), .embed .bin 7, .other] = .ok reads ∧
-      (⟨.dat 0 7, true, false⟩ : Read) ∈ reads := by
-    cases hr : compileReads cfgN 6 [.incl (.dialect 0), .embed .bin 7, .other] with
-    | error e => have := embed_not_listed.2; rw [hr] at this; simp [readsOf] at this
-    | ok l => exact ⟨l, rfl, by have := embed_not_listed.2; rw [hr] at this; exact this⟩
-  have hg : gatherDeps cfgN 6 [.incl (.dialect 0), .embed .bin 7, .other] = .ok [] := by
-    cases hr : gatherDeps cfgN 6 [.incl (.dialect 0), .embed .bin 7, .other] with
-    | error e => have := embed_not_listed.1; rw [hr] at this; simp [depsOf] at this
-    | ok l => have := embed_not_listed.1; rw [hr] at this; simp [depsOf] at this; rw [this]
-  obtain ⟨reads, hreads, hmem⟩ := hc
-  have := h cfgN 6 _ reads [] hreads hg _ hmem
-  simp [RName.isPseudo] at this
+/-- both at once and two levels deep: an embed-file and an include of file 2 (which includes
+    file 1) inside a mod nested in a mod — listed in `collect_include_forms` order. -/
+theorem nested_embed_listed_repaired :
+    depsOf (gatherDeps cfgS 8 [.incl (.dialect 0), .nested [.nested [.embed .hex 7, .incl (.file 2)], .other]])
+      = some [.dat 0 7, .src 0 2, .src 0 1, .src 0 1] ∧
+    (⟨.dat 0 7, true, true⟩ : Read) ∈
+      readsOf (compileReads cfgS 8 [.incl (.dialect 0), .nested [.nested [.embed .hex 7, .incl (.file 2)], .other]]) := by
+  decide
+
+/-- non-vacuity of `reads_subset_deps`, `listed_is_read` and `listed_is_first_match`: on the
+    program of `nested_embed_listed_repaired` both runs succeed, files that are no pseudo-files are
+    read (an embed target among them, inside a nested mod), and the listing is not empty. -/
+example : ∃ reads deps,
+    compileReads cfgS 8 [.incl (.dialect 0), .nested [.nested [.embed .hex 7, .incl (.file 2)], .other]] = .ok reads ∧
+    gatherDeps cfgS 8 [.incl (.dialect 0), .nested [.nested [.embed .hex 7, .incl (.file 2)], .other]] = .ok deps ∧
+    (∃ r ∈ reads, r.res.isPseudo = false ∧ r.embed = true ∧ r.nested = true) ∧ deps ≠ [] := by
+  refine ⟨_, _, rfl, rfl, ?_, ?_⟩ <;> decide
 
 -- non-vacuity: the hypotheses of the theorems are met by non-trivial programs --------------------
 
-/-- strict dialect, `(include "2")` where file 2 includes file 1: listing = 2, 1, 1 (the strict
-    preprocessor walks an included file twice); every plain read is listed. -/
+/-- `reads_subset_deps` / `listed_is_read` / `listed_is_first_match` apply (both runs succeed) to
+    the three `…_repaired` programs above and to the following ones.
+    strict dialect, `(include "2")` where file 2 includes file 1: listing = 2, 1, 1 (the strict
+    preprocessor walks an included file twice); every read is listed. -/
 example : depsOf (gatherDeps cfgS 6 [.incl (.dialect 0), .incl (.file 2), .other])
     = some [.src 0 2, .src 0 1, .src 0 1] := by decide
 
@@ -289,7 +254,7 @@ example : Ranked cfgS (fun n => if n = 2 then 1 else 0) ∧ FlatFiles cfgS := by
         · injection hf with hf; injection h with h; injection h with _ h; subst h; subst hf
           simp [inclsOf] at hm; subst hm; simp_all
         · cases hf
-    · simp [resolveSrc] at h
+    · simp at h
   · intro n i forms h
     simp only [cfgS, resolveSrc, dir0] at h
     split at h
@@ -299,6 +264,6 @@ example : Ranked cfgS (fun n => if n = 2 then 1 else 0) ∧ FlatFiles cfgS := by
       · split at hf
         · injection hf with hf; injection h with h; injection h with _ h; subst h; subst hf; rfl
         · cases hf
-    · simp [resolveSrc] at h
+    · simp at h
 
 end C18
